@@ -1209,6 +1209,13 @@ def allclose(a, b, **kw):
     return array_equal(a, b)
 
 
+def isclose(a, b, rtol=1e-05, atol=1e-08, equal_nan=False):
+    """over the reals: closeness is equality (the tolerance only absorbs float rounding)"""
+    if _is_arraylike(a) or _is_arraylike(b):
+        return _emap2(lambda u, v: u == v, a, b) if "_emap2" in globals() else NDArr(_obj([x == y for x, y in zip(list(_obj(a).flat), list(_obj(b).flat))]))
+    return a == b
+
+
 def unique(x):
     lst = _sorted(list(_obj(x).flat))
     out = []
